@@ -447,6 +447,12 @@ impl Schedule {
                 segment, provider, receiver,
             ));
         }
+        if !self.check_receiver_start_depot_capacity(provider, receiver, segment) {
+            return Err(format!(
+                "Cannot fit_reassign segment {} from vehicle {} to vehicle {}. Start depot of segment has no capacity for the receiver's vehicle type.",
+                segment, provider, receiver,
+            ));
+        }
         let mut vehicles = self.vehicles.clone();
         let mut tours = self.tours.clone();
         let mut next_period_transitions = self.next_period_transitions.clone();
@@ -526,6 +532,12 @@ impl Schedule {
         if !self.check_receiver_type_compatibility(provider, receiver, segment) {
             return Err(format!(
                 "Cannot override_reassign segment {} from vehicle {} to vehicle {}. Vehicle types do not match and segment contains service trip.",
+                segment, provider, receiver,
+            ));
+        }
+        if !self.check_receiver_start_depot_capacity(provider, receiver, segment) {
+            return Err(format!(
+                "Cannot override_reassign segment {} from vehicle {} to vehicle {}. Start depot of segment has no capacity for the receiver's vehicle type.",
                 segment, provider, receiver,
             ));
         }
@@ -937,6 +949,32 @@ impl Schedule {
             }
         }
         true
+    }
+
+    /// If the segment starts with the start depot of the provider, the receiver spawns at this depot
+    /// afterwards. The provider gives up its place, so this is only a problem if the receiver has
+    /// a different vehicle type, for which the depot might have no capacity left.
+    fn check_receiver_start_depot_capacity(
+        &self,
+        provider: VehicleIdx,
+        receiver: VehicleIdx,
+        segment: Segment,
+    ) -> bool {
+        if !self.network.node(segment.start()).is_start_depot() {
+            return true;
+        }
+        let receiver_type = match self.vehicle_type_of(receiver) {
+            Ok(vehicle_type) => vehicle_type,
+            Err(_) => return true, // dummy tours have no depots
+        };
+        if self.vehicle_type_of(provider) == Ok(receiver_type)
+            || self.tour_of(receiver).unwrap().start_depot() == Ok(segment.start())
+        {
+            return true;
+        }
+        let depot = self.network.get_depot_idx(segment.start());
+        self.number_of_vehicles_of_same_type_spawned_at(depot, receiver_type)
+            < self.network.capacity_of(depot, receiver_type)
     }
 
     /// Reassign vehicles to the new tours.
